@@ -450,7 +450,7 @@ func c19Cells(tier string, seed uint64) (cells []c19Cell, exhaustiveUpTo int) {
 	r := sub(seed, "C19", "large")
 	nLarge := 60
 	if tier == "thorough" {
-		nLarge = 1500
+		nLarge = 6000
 	}
 	for k := 0; k < nLarge; k++ {
 		n := r.between(full+1, 64)
